@@ -11,10 +11,12 @@ package fmtp
 //   every default codec matches itself.
 
 import (
+	"encoding/json"
 	"fmt"
 	"go/ast"
 	"go/parser"
 	"go/token"
+	"os"
 	"sort"
 	"strconv"
 	"strings"
@@ -272,6 +274,23 @@ func TestVerifC17(t *testing.T) {
 	if len(defaults) < 8 {
 		vkit.Fatalf(t, "only %d default codecs extracted from RegisterDefaultCodecs", len(defaults))
 	}
+	if raw, ok := c.ReplayCase(); ok {
+		// replay: only the recorded pair (or the recorded default codec)
+		var pair struct {
+			A *c17Desc `json:"a"`
+			B *c17Desc `json:"b"`
+		}
+		var single c17Desc
+		switch {
+		case json.Unmarshal(raw, &pair) == nil && pair.A != nil && pair.B != nil:
+			descs, defaults = []c17Desc{*pair.A, *pair.B}, nil
+		case json.Unmarshal(raw, &single) == nil && single.Mime != "":
+			descs, defaults = nil, []c17Desc{single}
+		default:
+			vkit.Fatalf(t, "replay case is neither a pair nor a codec description")
+		}
+	}
+	replaying := os.Getenv("VERIF_REPLAY") != ""
 	nProduct := len(descs)
 	descs = append(descs, defaults...)
 	c.Set("mimes", mimes)
@@ -281,9 +300,11 @@ func TestVerifC17(t *testing.T) {
 	c.Set("default_codecs", len(defaults))
 	c.Set("descriptions", len(descs))
 	c.Set("ordered_pairs", len(descs)*len(descs))
-	c.Sample(descs[2])
-	c.Sample(descs[nProduct/2])
-	c.Sample(defaults[0])
+	if !replaying {
+		c.Sample(descs[2])
+		c.Sample(descs[nProduct/2])
+		c.Sample(defaults[0])
+	}
 
 	// Clause 3: every default codec matches itself (two independent parses).
 	kinds := map[string]bool{}
@@ -300,7 +321,7 @@ func TestVerifC17(t *testing.T) {
 			}
 		})
 	}
-	if !kinds["video/h264"] || !kinds["audio/opus"] {
+	if !replaying && (!kinds["video/h264"] || !kinds["audio/opus"]) {
 		vkit.Fatalf(t, "default codec extraction is incomplete: %v", kinds)
 	}
 
@@ -372,7 +393,7 @@ func TestVerifC17(t *testing.T) {
 		}
 		c.EvalN(n)
 	})
-	if c.Outcomes() < 2 {
+	if !replaying && c.Outcomes() < 2 {
 		vkit.Fatalf(t, "vacuous: only one Match outcome observed")
 	}
 }
